@@ -49,6 +49,13 @@ def run(ctx):
           "atom_to_interned is keyed by Atom (content equality and hash)", site=f.where(0), detail=f.local_ty(a_map))
     ck.ob("R24a", F + "|pair map type", "HashMap<(allocator::NodePtr, allocator::NodePtr)" in f.local_ty(p_map),
           "pair_to_interned is keyed by a pair of nodes", site=f.where(0), detail=f.local_ty(p_map))
+    # the key type's Hash and Eq see the same thing - the bytes - whichever representation holds them (inline small atom
+    # or heap slice); otherwise equal atoms miss each other in the map and are interned twice
+    from rules import c14
+    for h, method, ok, callees in c14.atom_content_impls(cr, (("std::hash::Hash", "hash"), ("std::cmp::PartialEq", "eq"))):
+        ck.analysed(h)
+        ck.ob("R24a", F + f"|atom key {method}", ok, f"the atom map's key type implements {method} on the atom's bytes only (as_ref + slice {method})",
+              site=h.where(0), detail=callees)
     # entries
     entries = [(b, t) for b, t in f.calls() if (t.get("callee") or "").endswith("HashMap::<K, V, S, A>::entry")]
     a_entry = [(b, t) for b, t in entries if mir.op_place(t["args"][0]) is not None and any(x[0] in ("var", "named") and x[2] == a_map for x in walk(f.expr_op(t["args"][0], deep=False)))]
